@@ -41,15 +41,18 @@ def check(run):
     spins = [-2, 0, 1] if quick else list(range(-4, 5))
     pairs = [(0, 0), (3, 3), (2, 5), (6, 1)] if quick else [(a, b) for a in (0, 1, 4, 7, 12) for b in (0, 2, 7, 12)]
     leads = [((), ()), ((2,), (2,)), ((2, 1), (3,))]
+    kcount = 0
     for s in spins:
         for (La, Lb) in pairs:
             if La < abs(s) or Lb < abs(s):
                 La, Lb = max(La, abs(s)), max(Lb, abs(s))
             for la, lb in leads[: (2 if quick else 3)]:
-                f = helpers.make_modes(rng, s, La, la)
-                g = helpers.make_modes(rng, s, Lb, lb)
+                kf, kg = helpers.KINDS[kcount % 12], helpers.KINDS[(5 * kcount + 2) % 12]
+                kcount += 1
+                f = helpers.make_modes(rng, s, La, la, kf)
+                g = helpers.make_modes(rng, s, Lb, lb, kg)
                 fe, ge = ev(f, Rs), ev(g, Rs)
-                inp = {"s": s, "ell_max_f": La, "ell_max_g": Lb, "lead_f": list(la), "lead_g": list(lb)}
+                inp = {"s": s, "ell_max_f": La, "ell_max_g": Lb, "lead_f": list(la), "lead_g": list(lb), "weights_f": kf, "weights_g": kg}
                 for opname, op, expect in (("f+g", lambda: f + g, lambda: _b(fe, ge, la, lb, +1)), ("f-g", lambda: f - g, lambda: _b(fe, ge, la, lb, -1)),
                                            ("np.add", lambda: np.add(f, g), lambda: _b(fe, ge, la, lb, +1)), ("f.add(g)", lambda: f.add(g), lambda: _b(fe, ge, la, lb, +1)),
                                            ("f.subtract(g)", lambda: f.subtract(g), lambda: _b(fe, ge, la, lb, -1)), ("np.subtract", lambda: np.subtract(f, g), lambda: _b(fe, ge, la, lb, -1))):
